@@ -272,6 +272,9 @@ func (e *Engine) checkProperty(prop string, o runOpts) int {
 				sum.Havocs = append(sum.Havocs, h)
 			}
 		}
+		for _, a := range done[k].EngineAssumed {
+			assumedUsed["engine: "+a] = true
+		}
 		for _, u := range done[k].UsedCon {
 			if c := e.Contracts[u]; c != nil && c.Assumed {
 				assumedUsed[u+": "+c.Trusted] = true
@@ -322,6 +325,7 @@ func (e *Engine) checkProperty(prop string, o runOpts) int {
 		}
 	}
 	var bounded map[string]any
+	var conformance map[string]any
 	if prop == "C12" {
 		// alias-blindness lint: a clause claimed for C12 may speak about an element only through isStackLike/stackOf/isCondLike/condOf
 		for k, c := range todo {
@@ -384,11 +388,43 @@ func (e *Engine) checkProperty(prop string, o runOpts) int {
 			}
 		}
 	}
+	if o.Tier == "thorough" && violations == 0 && brokenGoals == 0 {
+		// conformance replay: proved postconditions evaluated on one real execution per function
+		ran, checked, skipped := 0, 0, 0
+		var mism []string
+		for _, k := range sortedKeys(todo) {
+			res := done[k]
+			if res == nil || ran >= 40 {
+				continue
+			}
+			cr := e.conformFunction(res, o)
+			if cr.Ran && cr.Checked > 0 {
+				ran++
+				checked += cr.Checked
+			} else {
+				skipped++
+			}
+			mism = append(mism, cr.Mismatch...)
+		}
+		conformance = map[string]any{"functions_executed": ran, "functions_skipped": skipped, "proved_clauses_evaluated_on_real_executions": checked, "mismatches": mism,
+			"what": "thorough tier: one input per function from the relaxation of its precondition, real function run, every proved postcondition evaluated on the observed execution (guards the engine's semantics; proves nothing)"}
+		fmt.Printf("gvc: conformance replay: %d functions executed, %d proved clauses evaluated, %d mismatches\n", ran, checked, len(mism))
+		for _, m := range mism {
+			fmt.Println("gvc: broken: model mismatch:", m)
+			brokenGoals++
+		}
+	}
 	for _, l := range lines {
 		fmt.Println(l)
 	}
 	wall := time.Since(start).Seconds()
 	if brokenGoals == 0 {
+		if conformance != nil {
+			if bounded == nil {
+				bounded = map[string]any{}
+			}
+			bounded["conformance_replay"] = conformance
+		}
 		e.writeEvidence(prop, o, seed, sum, known, violations, wall, bounded)
 	}
 	fmt.Printf("gvc: property %s: %d functions under contract, %d obligations, %d discharged (%d by known finding), %d violations, %.1fs\n",
@@ -467,7 +503,13 @@ func (e *Engine) writeEvidence(prop string, o runOpts, seed int, sum checkSummar
 		"per_query_timeout_s":    o.Timeout.Seconds(),
 	}
 	if bounded != nil {
-		cov["bounded_standins"] = []any{bounded}
+		if c, ok := bounded["conformance_replay"]; ok {
+			cov["conformance_replay"] = c
+			delete(bounded, "conformance_replay")
+		}
+		if len(bounded) > 0 {
+			cov["bounded_standins"] = []any{bounded}
+		}
 	}
 	if len(sum.Samples) == 0 {
 		cov["samples"] = []map[string]string{{"note": "no non-trivial obligation discharged"}}
